@@ -15,8 +15,15 @@ Decided structurally:
   R5 read-after-write every success value is the result of re-reading the layer after the last mutation
   R6 scope agreement  writer and reader of the env agree on all four scopes (shared with C03.R1)
 Not decided: equality of on-disk bytes with the callback's values (toml / fs are trusted).
+
+All effect-based rules (R1, R2, R4, R5, R6) run on C02_helpers.VecEffects: the interprocedural effect enumerator of
+lib.effects extended with the two ways a Vec local carries work inside a function (a (dir, delta) table grown by
+push / extend before the loop over it; an explicit-stack traversal that only succeeds with its work-list drained), so
+that "the layer directory is removed first" and "every scope is written where it is read" are stated on what happens to
+which path, not on recursion vs. work-list or four calls vs. one table.
 """
 from . import layer_env_common as L
+from . import C02_helpers as H
 from .lib.effects import Effects, outcomes, MUTATING, REMOVING
 from .lib.guards import conditions
 from .lib.paths import sbom_formats_covered, LayerPaths, cls_str, strip
@@ -64,7 +71,8 @@ def run(ctx, rep):
     ROLES = layer_roles.roles(prog, sl)
     HL, WL, RL = ROLES['TRAIT_HL'] or HL, ROLES['TRAIT_WL'] or WL, ROLES['TRAIT_RL'] or RL
     LayerPaths.sbom_path_fn = ROLES['SBOM_PATH'] or LayerPaths.sbom_path_fn
-    E = Effects(prog, sl)
+    # effects with Vec-carried work understood (tables grown by push/extend before a loop, drained work-lists)
+    E = H.VecEffects(prog, sl)
     hl = prog.fn(HL)
     rep.analysed(hl)
     is_ld = lambda v: v[0] == 'field' and v[2] == 'layers_dir' and v[1][0] == 'param' and v[1][1] == HL and v[1][2] == 0
@@ -298,7 +306,7 @@ def run(ctx, rep):
             c_ok = c1 is not None and strip(c1)[0] == 'param' and strip(c1)[2] == 2 and p1 == ('0',)
     rep.check(c_ok, 'R4', 'replace_exec_d/copy-each', '%s:%d' % (rx.file, rx.line), 'each program copied to exec.d/<its name>', 'exec.d copy target is not <layer>/exec.d/<name>')
     # ---- R6 ----------------------------------------------------------------------------------------------
-    wf, wt, wcalls = L.writer_scope_table(prog, sl)
+    wf, wt, wcalls = H.writer_scope_table(prog, sl)   # L.writer_scope_table on VecEffects
     from . import C03_helpers as H3   # the generalised reader table (helpers, collected pipelines)
     rf, rt, rdetail = H3.reader_scope_table(prog, sl)
     for scope in sorted(set(wt) | set(rt)):
